@@ -239,6 +239,11 @@ class Var:
             # check for null (false but not zero, including None, [], '')
             return args['null']
 
+        # text derived from untrusted (tainted) data stays untrusted, even
+        # if a format or modifier returns it as a plain string
+        tainted = isinstance(val, TaintedString)
+        quoted = False
+
         # handle special formats defined using fmt= first
         if 'fmt' in args:
             _get = getattr(md, 'guarded_getattr', None)
@@ -295,6 +300,14 @@ class Var:
                     else:
                         val = fmt % val
 
+            if tainted:
+                if fmt == 'multi-line':
+                    # newline_to_br has quoted the untrusted data itself
+                    tainted = False
+                    quoted = True
+                else:
+                    val = _keep_taint(val)
+
         # finally, pump it through the actual string format...
         fmt = self.fmt
         if fmt == 's':
@@ -320,6 +333,17 @@ class Var:
                 val = f(val, encoding=self.encoding)
                 continue
             val = f(val)
+            if quoted and f in (url_unquote, url_unquote_plus):
+                # do not let unquoting reintroduce markup into untrusted
+                # data that fmt=multi-line has already quoted
+                val = '<br />'.join(
+                    [p.replace('<', '&lt;') for p in val.split('<br />')])
+            if tainted:
+                if f is newline_to_br:
+                    # newline_to_br has quoted the untrusted data itself
+                    tainted = False
+                else:
+                    val = _keep_taint(val)
 
         if 'size' in args:
             size = args['size']
@@ -352,6 +376,17 @@ class Var:
             # bytes are decoded with the template's encoding
             return html_quote(val, name, md, encoding=self.encoding)
         return special_formats[fmt](val, name, md)
+
+
+def _keep_taint(val):
+    if isinstance(val, (TaintedString, int, float)):
+        return val
+    if not isinstance(val, (str, bytes)):
+        # e.g. a list of strings returned by a method format
+        val = ustr(val)
+    if isinstance(val, str) and '<' in val:
+        return TaintedString(val)
+    return val
 
 
 class Call:
